@@ -31,7 +31,10 @@ const POOL: [&str; 10] = [
     "ks 7 m",
     "mins 99 m",
 ];
-const EXTRA: [&str; 2] = ["in 0.0254 m", "n 5 m"];
+/// Always loaded.  The last entry is a substance that is rejected half-way (its second property
+/// is malformed) after a first property whose names collide with pool units: nothing of a
+/// rejected definition may influence what a name denotes afterwards.
+const EXTRA: [&str; 3] = ["in 0.0254 m", "n 5 m", "junk {\n  ms const min 3 m\n  broken const y 1 nothing_defined\n}"];
 const QP: [&str; 5] = ["", "m", "milli", "k", "mi"];
 const QU: [&str; 10] = ["s", "second", "m", "meter", "min", "in", "ms", "ks", "mins", "n"];
 
